@@ -9,6 +9,7 @@ use vh_displace_common::*;
 
 fn main() {
     let a = Args::parse();
+    debug_hooks();
     let mut rng = Rng::new(a.seed);
     let mut cs = Cases::new(&a.out, "c12");
     let mut or = Oracle::default();
@@ -33,7 +34,7 @@ fn main() {
 
     // property oracle on generated workbooks
     let mut scratch = Scratch::new();
-    let nbooks = if a.thorough { 900 } else { 50 };
+    let nbooks = if a.thorough { 2500 } else { 250 };
     let mut case = 0u64;
     for bi in 0..nbooks {
         let edge = bi % 4 == 0;
@@ -57,9 +58,11 @@ fn main() {
         for op in ops_list {
             case += 1;
             let user = case % 2 == 0;
-            let m = build(&bk);
+            let mut m = build(&bk);
             let before = dump(&m);
-            let ctx = Ctx { prop: "C12", case, entry: if user { "UserModel" } else { "Model" }, op_text: format!("{:?}", op), book: &bk };
+            let flaky = reevaluation_unstable(&mut m, &before);
+            if !flaky.is_empty() { st.bump("books_with_values_changing_on_reevaluation"); }
+            let ctx = Ctx { prop: "C12", case, entry: if user { "UserModel" } else { "Model" }, op_text: format!("{:?}", op), book: &bk, flaky: &flaky };
             let after = if user {
                 let mut u = ironcalc_base::UserModel::from_model(m);
                 if let Err(e) = op.apply_user(&mut u) { st.bump("op_refused"); st.sample(format!("refused {:?}: {e}", op)); continue; }
